@@ -666,6 +666,16 @@ def c23_picture(fmt, seed, kind, pic_num):
             rows = [[top] * w for _ in range(h)]
         elif kind == "zero":
             rows = [[0] * w for _ in range(h)]
+        elif kind == "steps":
+            # large values in the first part of the raster, small ones after a
+            # seeded position (letterbox-like): later samples need fewer bytes
+            n = w * h
+            cut = rng.randrange(1, n) if n > 1 else 1
+            small = rng.choice([0, 1, 64, 255])
+            flat = [top if i < cut else min(small, top) for i in range(n)]
+            if rng.random() < 0.3:
+                flat.reverse()
+            rows = [flat[y * w : (y + 1) * w] for y in range(h)]
         else:
             rows = [[(top >> ((x + y) % (d + 1))) for x in range(w)] for y in range(h)]
         pic[comp] = rows
@@ -823,9 +833,9 @@ class C23(Spec):
         if rng.random() < 0.001:
             # one very long row / column (a row of more than 64 KiB ... 1 MiB)
             if rng.random() < 0.7:
-                w, h = rng.choice([16400, 33000, 70000]) * hs, vs
+                w, h = rng.choice([16400, 33000, 70000, 8]) * hs, vs
             else:
-                w, h = hs, rng.choice([16400, 70000]) * vs
+                w, h = rng.choice([1, 8]) * hs, rng.choice([16400, 70000, 4104]) * vs
         d = rng.choice([1, 2, 3, 7, 8, 9, 10, 12, 15, 16, 17, 24, 31, 32, 33, 48, 63, 64, 65, 100, 128, 129])
         dc = rng.choice([d, d, 8, 1, 10, 64, 12])
 
@@ -863,7 +873,7 @@ class C23(Spec):
                 f["key"] = rng.choice(["frame_rate_numer", "top_field_first", "luma_offset", "clean_width", "pixel_aspect_ratio_numer"])
             faults.append(f)
         case = {
-            "fmt": fmt, "npics": npics, "pic_seed": rng.randrange(1 << 30), "pic_kind": rng.choice(["noise", "noise", "max", "zero", "ramp"]),
+            "fmt": fmt, "npics": npics, "pic_seed": rng.randrange(1 << 30), "pic_kind": rng.choice(["noise", "noise", "max", "zero", "ramp", "steps", "steps"]),
             "pic_num": rng.choice([0, 1, 7, (1 << 32) - 1, rng.randrange(1 << 32)]), "faults": faults, "mode": "dir" if npics > 1 or rng.random() < 0.3 else "file",
         }
         if rng.random() < 0.4:
